@@ -43,14 +43,14 @@ SeqLess(a, b) ==      \* lexicographic order on terms (letter codes ordered as t
   ELSE IF Head(a) # Head(b) THEN Head(a) < Head(b)
   ELSE SeqLess(Tail(a), Tail(b))
 
-\* glob: letter code -1 is '?', -2 is '*'
+\* glob: letter code -1 is '?', -2 is '*', -3 is the character class [ab] (letter codes 1 and 2)
 RECURSIVE Glob(_, _)
 Glob(p, t) ==
   IF p = <<>> THEN t = <<>>
   ELSE IF Head(p) = -2
        THEN \E k \in 0 .. Len(t) : Glob(Tail(p), SubSeq(t, k + 1, Len(t)))
        ELSE /\ t # <<>>
-            /\ (Head(p) = -1 \/ Head(p) = Head(t))
+            /\ (Head(p) = -1 \/ Head(p) = Head(t) \/ (Head(p) = -3 /\ Head(t) \in {1, 2}))
             /\ Glob(Tail(p), Tail(t))
 
 \* restricted Damerau-Levenshtein distance (insert, delete, substitute,
